@@ -20,7 +20,9 @@
 EXTENDS ValTerms, SequencesExt, Json
 
 CONSTANTS Tier,   \* "quick" | "thorough"
-          Seed    \* VERIF_SEED (selects the samples of the thorough tier)
+          Seed,   \* VERIF_SEED (selects the samples of the thorough tier)
+          FamLo, FamHi   \* the range of families whose rows are generated (FamHi = 0: up to the last one);
+                         \* the judge runs on slices of the table, the design-level run on all of it
 
 Thorough == Tier = "thorough"
 
@@ -452,7 +454,8 @@ RowsOfFam(zf) ==
                         ELSE IF f.op = "ChooseAny" THEN TRUE ELSE Def(f.op, f.lam, vals)]]
   IN SelectSeq(all, LAMBDA r : r.keep)
 
-Rows == FlatSeq([zf \in 1..Len(Families) |-> RowsOfFam(zf)])
+FamLast == IF FamHi = 0 THEN Len(Families) ELSE FamHi
+Rows == FlatSeq([zk \in 1..(FamLast - FamLo + 1) |-> RowsOfFam(FamLo + zk - 1)])
 NRows == Len(Rows)
 
 TxtOf(r) == RowTxt(r.op, r.lam, [zi \in 1..Len(r.args) |-> Txt(r.args[zi])])   \* TLA+ source text of the row
